@@ -621,7 +621,20 @@ func blockSize(r *rand.Rand, left int) int {
 	return k
 }
 
-func (o *world) genDeposit() *deposit {
+// genDeposit: a deposit whose leaf content differs from every earlier one (names identify hashes only if leaf contents
+// are pairwise distinct; the small classes - zero address, amount 0, no metadata - collide quickly otherwise).
+func (o *world) genDeposit(seen map[common.Hash]bool) *deposit {
+	for {
+		d := o.genDeposit1()
+		h := names.Keccak([]byte{d.leafType}, big.NewInt(int64(d.destNet)).Bytes(), d.destAddr[:], d.amount.Bytes(), []byte{0xff}, d.meta)
+		if !seen[h] {
+			seen[h] = true
+			return d
+		}
+	}
+}
+
+func (o *world) genDeposit1() *deposit {
 	r := o.rng
 	d := &deposit{leafType: uint8(r.Intn(2)), destAddr: randAddr(r), force: r.Intn(2) == 0}
 	for {
@@ -677,7 +690,7 @@ func runBridgeEnv(w *tr.W, rng *rand.Rand, dir string, t int, netID uint32, nDep
 	}
 	dl := newDownloader("verif-contracts-bridge", o.cl, app, []common.Address{o.bridgeAddr})
 
-	sent := 0
+	sent, seenDep := 0, map[common.Hash]bool{}
 	for sent < nDep {
 		if rng.Intn(3) == 0 { // sparse block numbers, varying timestamps
 			if err := o.adjustTime(time.Duration(1+rng.Intn(5000)) * time.Second); err != nil {
@@ -688,7 +701,7 @@ func runBridgeEnv(w *tr.W, rng *rand.Rand, dir string, t int, netID uint32, nDep
 		var ds []*deposit
 		var txs []*types.Transaction
 		for j := 0; j < k; j++ {
-			d := o.genDeposit()
+			d := o.genDeposit(seenDep)
 			if d.leafType == 0 {
 				d.tx, err = o.bridge.BridgeAsset(o.txOpts(d.amount), d.destNet, d.destAddr, d.amount, common.Address{}, d.force, []byte{})
 			} else {
@@ -806,6 +819,7 @@ func runBridgeEnv(w *tr.W, rng *rand.Rand, dir string, t int, netID uint32, nDep
 	}
 
 	// pure getLeafValue calls: field combinations that cannot be sent as a transaction
+	seenCase := map[common.Hash]bool{}
 	for k := 0; k < nCases; k++ {
 		r := rng
 		b := &bridgesync.Bridge{LeafType: []uint8{0, 1, 2, 255}[r.Intn(4)], OriginAddress: randAddr(r), DestinationAddress: randAddr(r)}
@@ -827,9 +841,14 @@ func runBridgeEnv(w *tr.W, rng *rand.Rand, dir string, t int, netID uint32, nDep
 		default:
 			b.Amount = new(big.Int).Add(pow2(255), new(big.Int).Rand(r, pow2(255)))
 		}
+		rl := names.BridgeLeaf(b.LeafType, b.OriginNetwork, b.OriginAddress, b.DestinationNetwork, b.DestinationAddress, b.Amount, b.Metadata)
+		if seenCase[rl] { // same content as an earlier case (the corner cases have few free fields): draw again
+			k--
+			continue
+		}
+		seenCase[rl] = true
 		atom := extraAtom0 + k
-		dict.Put(names.BridgeLeaf(b.LeafType, b.OriginNetwork, b.OriginAddress, b.DestinationNetwork, b.DestinationAddress, b.Amount, b.Metadata),
-			names.Name{T: "s", H: 0, Ls: []any{atom}})
+		dict.Put(rl, names.Name{T: "s", H: 0, Ls: []any{atom}})
 		cv, err := o.bridge.GetLeafValue(nil, b.LeafType, b.OriginNetwork, b.OriginAddress, b.DestinationNetwork, b.DestinationAddress,
 			b.Amount, crypto.Keccak256Hash(b.Metadata))
 		if err != nil {
